@@ -16,3 +16,6 @@ pub use self::verifier::batch_verify;
 pub use self::verifier::Verifier;
 
 pub use crate::errors::R1CSError;
+
+#[cfg(feature = "verif-hooks")]
+pub use self::constraint_system::VerifTamper;
